@@ -178,8 +178,11 @@ class UdpInverterProtocol(InverterProtocol, asyncio.DatagramProtocol):
     def error_received(self, exc: Exception) -> None:
         """On error received"""
         logger.debug("Received error: %s", exc)
-        self.response_future.set_exception(exc)
-        self._retry = 0
+        try:
+            self.response_future.set_exception(exc)
+            self._retry = 0
+        except (asyncio.InvalidStateError, AttributeError):
+            logger.debug("No pending request to report the error to.")
         self._close_transport()
 
     async def send_request(self, command: ProtocolCommand) -> Future:
@@ -328,8 +331,11 @@ class TcpInverterProtocol(InverterProtocol, asyncio.Protocol):
     def error_received(self, exc: Exception) -> None:
         """On error received"""
         logger.debug("Received error: %s", exc)
-        self.response_future.set_exception(exc)
-        self._retry = 0
+        try:
+            self.response_future.set_exception(exc)
+            self._retry = 0
+        except (asyncio.InvalidStateError, AttributeError):
+            logger.debug("No pending request to report the error to.")
         self._close_transport()
 
     async def send_request(self, command: ProtocolCommand) -> Future:
